@@ -544,7 +544,15 @@ class LinearOperator(EditableModule):
         # calculate (dL/dx)^T = A^T (dL/dy)^T with (dL/dy)^T = xt
         xt2 = xt.contiguous().expand_as(y)  # (*BAY, p)
         if not y.requires_grad:
-            # the operator does not depend on its input: it is the zero operator
+            # no graph from the input to the output: either the operator is the
+            # zero operator, or its .mv is not recorded by autograd (detached,
+            # under no_grad, through numpy), in which case there is no adjoint trick
+            probe = torch.rand(xdummy.shape, generator=torch.Generator().manual_seed(0)) + 0.5
+            with torch.no_grad():
+                yprobe = self.mv(probe.to(xdummy.dtype).to(xdummy.device))
+            if torch.count_nonzero(yprobe) > 0:
+                raise RuntimeError("The adjoint products of %s need an .mv that autograd can differentiate "
+                                   "with respect to its input; implement ._rmv instead" % self.__class__.__name__)
             return torch.zeros_like(xdummy)
         res = torch.autograd.grad(y, xdummy, grad_outputs=xt2,
                                   create_graph=torch.is_grad_enabled(),
